@@ -55,6 +55,8 @@ def build_key(kd):
         return U.KO(kd[1])
     if t == 'K':
         return U.K(kd[1])
+    if t == 'FK':
+        return U.FK(kd[1])
     raise ValueError(kd)
 
 
@@ -144,6 +146,8 @@ def build(desc):
         return U.DC(build(desc[1]), build(desc[2]), _meta(desc[3]))
     if t == 'bad':
         return U.Bad(desc[1])
+    if t == 'fn':
+        return U.FN([build(c) for c in desc[1]], U.FM(desc[2]) if desc[2] is not None else None)
     if t == 'cq':
         return U.CSeq(*[build(c) for c in desc[1]])
     if t == 'cp':
@@ -328,6 +332,8 @@ def _node(draw, budget, depth, keys, kinds, max_depth, leaf=None):
         return ['cu', kids(3), draw(st.lists(st.integers(0, 2), max_size=2))]
     if kind == 'ci':
         return ['ci', kids(3)]
+    if kind == 'fn':
+        return ['fn', kids(3), draw(st.sampled_from([None, 1, 2]))]
     if kind == 'cq':
         return ['cq', kids(3)]
     if kind == 'cp':
@@ -450,7 +456,7 @@ LEAF_TAGS = ('L', 'i', 's', 'f', 'sub')
 def children_refs(desc):
     """[(container, index)] such that container[index] is a child tree description of this node"""
     t = desc[0]
-    if t in ('tuple', 'list', 'deque', 'cg', 'cu', 'ci', 'cq'):
+    if t in ('tuple', 'list', 'deque', 'cg', 'cu', 'ci', 'cq', 'fn'):
         return [(desc[1], i) for i in range(len(desc[1]))]
     if t in ('nt', 'ss'):
         return [(desc[2], i) for i in range(len(desc[2]))]
